@@ -24,5 +24,5 @@ def replay(rp):
 
 TECHNIQUE = "Coq/Coquelicot proofs that the translated scalar rules are the true derivatives + ring-generic adjointness theorems for broadcasting, selections, bilinear and R-linear maps, reductions; translator regenerated from /repo each run; model-vs-implementation correspondences evaluated in Coq (structure read off NumPy); exact/numeric Jacobian oracle over the call-configuration space"
 DESIGN_REF = "DESIGN.md 4.1"
-LEVEL_TEXT = "Family-partial proof: see Props/C01.v for the proved set (ufunc-style rules for all shapes/broadcasts; structural (selection) primitives for every selection list; bilinear primitives (dot/matmul/tensordot/inner/outer/kron/einsum/cross/multiply) for every list of structure constants, real and complex operands; R-linear primitives on complex arrays in realified form (FFT family, real/imag/conj); sum/mean over any axes; var/std/prod/cumsum/2-norm on fibres of any length); everything else (linalg decompositions, non-integer FFT lengths, non-constant pad modes, gradient, ...) is examined by the implementation oracle and not claimed as proved."
+LEVEL_TEXT = "Family-partial proof: see Props/C01.v for the proved set (ufunc-style rules for all shapes/broadcasts; structural (selection) primitives for every selection list; bilinear primitives (dot/matmul/tensordot/inner/outer/kron/einsum/cross/multiply) for every list of structure constants, real and complex operands; R-linear primitives on complex arrays in realified form (FFT family, real/imag/conj); sum/mean over any axes; var/std/prod/cumsum/2-norm on fibres of any length; linalg.inv and linalg.solve for all sizes: resolvent identity and rule adjointness); everything else (the other linalg functions, non-integer FFT lengths, non-constant pad modes, gradient, ...) is examined by the implementation oracle and not claimed as proved."
 LEVEL_NOTE = "Trusted: Coq kernel; stdlib real-number axioms (sig_forall_dec, sig_not_dec, functional_extensionality_dep, classic) via Reals/Coquelicot; the translator; NumPy as the primal."
